@@ -68,7 +68,7 @@ func pickTipsIn(r *rand.Rand, maxT int, oneIn int) int {
 	case 1:
 		return 129 + r.Intn(6)
 	}
-	return 4 + r.Intn(maxi(1, maxT-3))
+	return 3 + r.Intn(maxi(1, maxT-2))
 }
 
 func calcGen(maxT int) GenParams {
